@@ -415,7 +415,7 @@ def main():
                 if v in a.get("variants", variants):
                     runs.append((a["prop"], seed, "%s__%s" % (v, a["prop"]), {"VERIF_PART": a.get("part", "")}))
             for sprop, sd, label, env_add in runs:
-                rc, out = sh([binp, sprop, tier, str(sd), rundir, label], cwd=ROOT, timeout=3000, env=dict(extra_env, **env_add))
+                rc, out = sh([binp, sprop, tier, str(sd), rundir, label], cwd=ROOT, timeout=(3000 if tier == "thorough" else 900), env=dict(extra_env, **env_add))
                 if rc != 0:
                     harness_ok = False
                     sig = "signal %d" % (-rc) if rc < 0 else "exit %d" % rc
